@@ -153,6 +153,16 @@ def _gen_join_edge(rng, nhash):
     """two sketches whose cells sit at, one short of and two short of either limit, then a join in one
     direction or the other (every cell one step from a limit, on both sides of it)"""
     hs = [rng.randrange(2**64) for _ in range(nhash)]
+    if rng.random() < 0.35:
+        # cells next to the limits while the element totals are small: what goes up on one key comes down on
+        # another, in both sketches; no bound on the totals says anything about a single cell
+        hs2 = [rng.randrange(2**64) for _ in range(nhash)]
+        big = rng.choice([2**30 + 5, 2**31 - 7, 2**30, 3 * 2**29])
+        ops = [("add", hs, big), ("rem", hs2, big), ("swap",), ("add", hs, big), ("rem", hs2, big)]
+        if rng.random() < 0.5:
+            ops.append(("swap",))
+        ops.append(("join",))
+        return ops
     edge = rng.choice([2**31 - 1, 2**31 - 2, 2**31, 2**31 - 3])
     small = rng.choice([1, 1, 2, 3, 2**31 - 1])
     first = rng.choice(["add", "rem"])
